@@ -61,7 +61,7 @@ class FileHooks(A.Hooks):
             if self.load_fails:
                 state.env['__exc'] = self.load_fails
                 return A.TOP
-            return copy.deepcopy(self.content)
+            return A.NONE if self.content is None else copy.deepcopy(self.content)
         if fname == 'pickle.dump':
             if self.dump_fails:
                 state.env['__exc'] = self.dump_fails
@@ -71,9 +71,15 @@ class FileHooks(A.Hooks):
         if fname == 'os.remove':
             state.env['__removed'] = True
             return A.NONE
-        if fname.endswith('.persist') and not args and isinstance(node.func, ast.Attribute):
+        if fname.endswith('.persist') and len(args) <= 1 and isinstance(node.func, ast.Attribute):
             recv = interp.ev(node.func.value, state)
             if isinstance(recv, A.Obj):
+                if args and isinstance(args[0], dict):
+                    # Macro.persist(attrs): fills the dictionary it is given - what was in it before stays
+                    args[0]['saved-from'] = recv.label
+                    return args[0]
+                if args and args[0] is not None:
+                    return A.TOP
                 return {'saved-from': recv.label}
         if fname.endswith('.restore') and len(args) == 1 and isinstance(node.func, ast.Attribute):
             recv = interp.ev(node.func.value, state)
@@ -131,6 +137,10 @@ def r201(chk, m):
         ('no previous file', dict(exists=False, content=None), {'HTML5': mine}),
         ('a previous file with another renderer\'s section', dict(exists=True, content={'XHTML': {'z': 'old'}}), {'XHTML': {'z': 'old'}, 'HTML5': mine}),
         ('a previous file with entries of this renderer', dict(exists=True, content={'HTML5': {'a': 'stale', 'q': 'keep'}}), {'HTML5': dict(mine, q='keep')}),
+        ('a previous file with an older record of the same label', dict(exists=True, content={'HTML5': {'a': {'saved-from': 'OLD', 'title': 'of an earlier run'}}}),
+         {'HTML5': mine}),
+        ('a previous file that holds something else than a table (a list)', dict(exists=True, content=['not', 'a', 'table']), {'HTML5': mine}),
+        ('a previous file that holds something else than a table (None)', dict(exists=True, content=None), {'HTML5': mine}),
     ] + [('a corrupt previous file (%s)' % f, dict(exists=True, content=None, load_fails=f), {'HTML5': mine}) for f in FAILURES[:3]]
     for label, cfg, want in pcases:
         c = ctx()
